@@ -149,3 +149,14 @@ package iop
 //@ + invariant[inner] 0 <= j
 //@ modifies nothing
 //@ end
+
+// grow pads the coefficient vector with zeros up to newSize: the old coefficients are kept and every new entry is
+// zero - whatever the capacity of the caller's slice holds beyond its length (a re-slice instead of the append
+// would expose those entries as coefficients: the value of the polynomial would change with its representation).
+//@ func polynomial.grow
+//@ layer ring fr.Element bigint big.Int
+//@ ensures[length] len(*p.coefficients) == max(old(len(*p.coefficients)), newSize)
+//@ ensures[kept] forall(j, 0, old(len(*p.coefficients)), (*p.coefficients)[j] == old((*p.coefficients)[j]))
+//@ ensures[zero-padding] forall(j, old(len(*p.coefficients)), len(*p.coefficients), (*p.coefficients)[j] == 0)
+//@ modifies p.coefficients, *p.coefficients
+//@ end
